@@ -24,13 +24,13 @@ ASSUMPTIONS = ['the reader accepts any run of spaces/newlines between tokens and
 REPORT = ['modules', 'evaluations', 'texts_read_back', 'strings_with_quote', 'empty_bit_or_octet_strings', 'reals', 'collision_checks',
           'reader_not_applicable', 'carved_out']
 FLOORS = {'quick': {'evaluations': 12000, 'texts_read_back': 10000, 'strings_with_quote': 300, 'reals': 1000},
-          'thorough': {'evaluations': 150000}}
+          'thorough': {'evaluations': 48000, 'texts_read_back': 40000, 'strings_with_quote': 1200, 'reals': 4000}}
 TIMEOUT = {'quick': 1800, 'thorough': 14000}
 INDENTS = [None, 0, 2, 4]
 
 
 def shards(tier):
-    return 32 if tier == 'quick' else 128
+    return 32 if tier == 'quick' else 64
 
 
 def params(tier):
